@@ -16,7 +16,7 @@ use grenad::{
 };
 
 use crate::decode;
-use crate::io::{self as vio, Chunk, ChunkCtl, Creator, Sink, Src, SrcFault};
+use crate::io::{self as vio, ChunkCtl, Creator, Sink, Src, SrcFault};
 use crate::util::*;
 
 pub struct Line {
@@ -213,8 +213,96 @@ enum IterBox {
     PR(RevPrefixIter<Src>),
 }
 
+pub enum AnySorter {
+    Custom(Sorter<Mf, Creator>),
+    Vecs(Sorter<Mf, grenad::CursorVec>),
+    Tmp(Sorter<Mf, grenad::TempFileChunk>),
+}
+
+fn build_sorter<CC: grenad::ChunkCreator>(cfg: &SCfg, mf: Mf, cc: CC) -> Sorter<Mf, CC> {
+    let hooked = cfg.minmem != 10485760 || cfg.init != 131072;
+    let mut b = SorterBuilder::new(mf);
+    b.dump_threshold(cfg.thr);
+    b.allow_realloc(cfg.realloc);
+    b.max_nb_chunks(cfg.maxchunks);
+    b.sort_algorithm(if cfg.stable { SortAlgorithm::Stable } else { SortAlgorithm::Unstable });
+    b.sort_in_parallel(cfg.par);
+    b.chunk_compression_type(codec_of(cfg.chunk.codec));
+    b.chunk_compression_level(cfg.chunk.level);
+    b.index_key_interval(NonZeroUsize::new(cfg.chunk.iv.max(1)).unwrap());
+    b.block_size(cfg.chunk.bs);
+    b.index_levels(cfg.chunk.levels);
+    let mut s = b.chunk_creator(cc).build();
+    if hooked {
+        // the hook bypasses the minimum clamp and the initial-size constant only
+        let budget = cfg.thr.max(cfg.minmem);
+        s.verif_set_budget(budget, if cfg.realloc { cfg.init } else { budget });
+    }
+    s
+}
+
+fn finish_sorter<CC: grenad::ChunkCreator>(s: Sorter<Mf, CC>, mode: &str, mf: &Mf) -> Result<(Vec<Entry>, u64), String> {
+    let drain = |mut it: MergerIter<CC::Chunk, Mf>| -> Result<Vec<Entry>, String> {
+        let mut acc = Vec::new();
+        while let Some((k, v)) = it.next().map_err(|e| fmt_err(&e))? {
+            acc.push((k.to_vec(), v.to_vec()));
+        }
+        Ok(acc)
+    };
+    match mode {
+        "writer" => {
+            let mut w = Writer::memory();
+            s.write_into_stream_writer(&mut w).map_err(|e| fmt_err(&e))?;
+            let bytes = w.into_inner().map_err(|e| fmt_io_err(&e))?;
+            Ok((decode::decode(&bytes)?.entries, u64::MAX))
+        }
+        "cursors" => {
+            let cursors = s.into_reader_cursors().map_err(|e| fmt_err(&e))?;
+            let chunks = cursors.len() as u64;
+            let mut b = Merger::builder(mf.clone());
+            b.extend(cursors);
+            let it = b.build().into_stream_merger_iter().map_err(|e| fmt_err(&e))?;
+            Ok((drain(it)?, chunks))
+        }
+        _ => {
+            // empty chunks are dropped as soon as the merger is built, so the number of
+            // live chunks is not the number of chunks here: not compared in this mode
+            let it = s.into_stream_merger_iter().map_err(|e| fmt_err(&e))?;
+            Ok((drain(it)?, u64::MAX))
+        }
+    }
+}
+
+impl AnySorter {
+    fn insert(&mut self, k: &[u8], v: &[u8]) -> Result<(), String> {
+        match self {
+            AnySorter::Custom(s) => s.insert(k, v).map_err(|e| fmt_err(&e)),
+            AnySorter::Vecs(s) => s.insert(k, v).map_err(|e| fmt_err(&e)),
+            AnySorter::Tmp(s) => s.insert(k, v).map_err(|e| fmt_err(&e)),
+        }
+    }
+    fn fingerprint(&self) -> (usize, usize, usize, usize) {
+        match self {
+            AnySorter::Custom(s) => s.verif_fingerprint(),
+            AnySorter::Vecs(s) => s.verif_fingerprint(),
+            AnySorter::Tmp(s) => s.verif_fingerprint(),
+        }
+    }
+    fn is_custom(&self) -> bool {
+        matches!(self, AnySorter::Custom(_))
+    }
+    fn finish(self, mode: &str, mf: &Mf) -> Result<(Vec<Entry>, u64), String> {
+        match self {
+            AnySorter::Custom(s) => finish_sorter(s, mode, mf),
+            AnySorter::Vecs(s) => finish_sorter(s, mode, mf),
+            AnySorter::Tmp(s) => finish_sorter(s, mode, mf),
+        }
+    }
+}
+
 #[derive(Clone, Debug)]
 pub struct SCfg {
+    creator: String,
     thr: usize,
     minmem: usize,
     init: usize,
@@ -243,7 +331,7 @@ pub struct Interp {
     iters: HashMap<usize, IterBox>,
     msrcs: Vec<(Vec<Entry>, WCfg)>,
     scfg: SCfg,
-    sorter: Option<Sorter<Mf, Creator>>,
+    sorter: Option<AnySorter>,
     smf: Option<Mf>,
     sctl: Rc<RefCell<ChunkCtl>>,
     alloc_live: HashMap<usize, (usize, usize)>,
@@ -281,6 +369,7 @@ impl Interp {
             iters: HashMap::new(),
             msrcs: Vec::new(),
             scfg: SCfg {
+                creator: "custom".into(),
                 thr: 0,
                 minmem: 10485760,
                 init: 131072,
@@ -798,6 +887,7 @@ impl Interp {
             "scfg" => {
                 let a = &toks[1..];
                 self.scfg = SCfg {
+                    creator: a.iter().find_map(|t| t.strip_prefix("creator=")).unwrap_or("custom").to_string(),
                     thr: kv_arg(a, "thr", 0) as usize,
                     minmem: kv_arg(a, "minmem", 10485760) as usize,
                     init: kv_arg(a, "init", 131072) as usize,
@@ -997,8 +1087,8 @@ impl Interp {
         None
     }
 
-    fn sorter_state(&mut self, s: &Sorter<Mf, Creator>) -> String {
-        let (buf, elen, bc, chunks) = s.verif_fingerprint();
+    fn sorter_state(&mut self, s: &AnySorter) -> String {
+        let (buf, elen, bc, chunks) = s.fingerprint();
         let trace = grenad::verif::take_alloc_trace();
         if let Some(msg) = Self::alloc_oracle(&mut self.alloc_live, &trace) {
             self.oracle_failures += 1;
@@ -1015,7 +1105,7 @@ impl Interp {
                 }
             })
             .collect();
-        let cev: String = self.sctl.borrow_mut().events.drain(..).collect();
+        let cev: String = if s.is_custom() { self.sctl.borrow_mut().events.drain(..).collect() } else { "*".to_string() };
         format!("ok buf={} elen={} bc={} chunks={} ev={} cev={}", buf, elen, bc, chunks, ev.join(","), cev)
     }
 
@@ -1038,33 +1128,18 @@ impl Interp {
         }
         let cfg = self.scfg.clone();
         let ctl = self.sctl.clone();
-        let r = catch_unwind(AssertUnwindSafe(|| {
-            let hooked = cfg.minmem != 10485760 || cfg.init != 131072;
-            let mut b = SorterBuilder::new(mf);
-            b.dump_threshold(cfg.thr);
-            b.allow_realloc(cfg.realloc);
-            b.max_nb_chunks(cfg.maxchunks);
-            b.sort_algorithm(if cfg.stable { SortAlgorithm::Stable } else { SortAlgorithm::Unstable });
-            b.sort_in_parallel(cfg.par);
-            b.chunk_compression_type(codec_of(cfg.chunk.codec));
-            b.chunk_compression_level(cfg.chunk.level);
-            b.index_key_interval(NonZeroUsize::new(cfg.chunk.iv.max(1)).unwrap());
-            b.block_size(cfg.chunk.bs);
-            b.index_levels(cfg.chunk.levels);
-            let mut s = b.chunk_creator(Creator(ctl)).build();
-            if hooked {
-                // the hook bypasses the minimum clamp and the initial-size constant only
-                let budget = cfg.thr.max(cfg.minmem);
-                s.verif_set_budget(budget, if cfg.realloc { cfg.init } else { budget });
-            }
-            s
+        let r = catch_unwind(AssertUnwindSafe(|| match cfg.creator.as_str() {
+            "cursorvec" => AnySorter::Vecs(build_sorter(&cfg, mf, grenad::CursorVec)),
+            "tempfile" => AnySorter::Tmp(build_sorter(&cfg, mf, grenad::TempFileChunk)),
+            _ => AnySorter::Custom(build_sorter(&cfg, mf, Creator(ctl))),
         }));
         match r {
             Ok(s) => {
                 self.alloc_live.clear();
                 let trace = grenad::verif::take_alloc_trace();
                 let bad = Self::alloc_oracle(&mut self.alloc_live, &trace);
-                let (buf, _, _, _) = s.verif_fingerprint();
+                let (buf, _, _, _) = s.fingerprint();
+                let custom = s.is_custom();
                 if let Some(msg) = bad {
                     self.oracle_failures += 1;
                     self.sorter = Some(s);
@@ -1072,7 +1147,7 @@ impl Interp {
                     return;
                 }
                 self.sorter = Some(s);
-                self.emit(line, format!("ok buf={} elen=0 bc=0 chunks=0 ev=A{} cev=", buf, buf), "-".into());
+                self.emit(line, format!("ok buf={} elen=0 bc=0 chunks=0 ev=A{} cev={}", buf, buf, if custom { "" } else { "*" }), "-".into());
             }
             Err(p) => {
                 self.sorter = None;
@@ -1098,7 +1173,7 @@ impl Interp {
             }
             Ok(Err(e)) => {
                 grenad::verif::take_alloc_trace();
-                fmt_err(&e)
+                e
             }
             Err(p) => {
                 std::mem::forget(s);
@@ -1140,37 +1215,7 @@ impl Interp {
         let ctl = self.sctl.clone();
         let ops_before = ctl.borrow().ops;
         let stable = self.scfg.stable && !self.scfg.par || self.scfg.stable;
-        let r = catch_unwind(AssertUnwindSafe(|| -> Result<(Vec<Entry>, u64), String> {
-            let drain = |mut it: MergerIter<Chunk, Mf>| -> Result<Vec<Entry>, String> {
-                let mut acc = Vec::new();
-                while let Some((k, v)) = it.next().map_err(|e| fmt_err(&e))? {
-                    acc.push((k.to_vec(), v.to_vec()));
-                }
-                Ok(acc)
-            };
-            match mode {
-                "writer" => {
-                    let mut w = Writer::memory();
-                    s.write_into_stream_writer(&mut w).map_err(|e| fmt_err(&e))?;
-                    let bytes = w.into_inner().map_err(|e| fmt_io_err(&e))?;
-                    Ok((decode::decode(&bytes)?.entries, u64::MAX))
-                }
-                "cursors" => {
-                    let cursors = s.into_reader_cursors().map_err(|e| fmt_err(&e))?;
-                    let chunks = cursors.len() as u64;
-                    let mut b = Merger::builder(mf.clone());
-                    b.extend(cursors);
-                    let it = b.build().into_stream_merger_iter().map_err(|e| fmt_err(&e))?;
-                    Ok((drain(it)?, chunks))
-                }
-                _ => {
-                    // empty chunks are dropped as soon as the merger is built, so the number of
-                    // live chunks is not the number of chunks here: not compared in this mode
-                    let it = s.into_stream_merger_iter().map_err(|e| fmt_err(&e))?;
-                    Ok((drain(it)?, u64::MAX))
-                }
-            }
-        }));
+        let r = catch_unwind(AssertUnwindSafe(|| s.finish(mode, &mf)));
         let trace = grenad::verif::take_alloc_trace();
         let mut alloc_bad = Self::alloc_oracle(&mut self.alloc_live, &trace);
         if alloc_bad.is_none() && !self.alloc_live.is_empty() && matches!(r, Ok(Ok(_))) {
